@@ -12,6 +12,7 @@ package c19
 import (
 	"context"
 	"fmt"
+	"strings"
 	"sync/atomic"
 	"time"
 
@@ -21,12 +22,14 @@ import (
 )
 
 type interleaving struct {
-	Index   int    `json:"index"`
-	MaxConc int    `json:"max_concurrent_events"`
-	N       int    `json:"backends"`
-	Head    string `json:"head"`  // backend-handler | tag-head | full-chain
-	Order   string `json:"order"` // which held backend is released next: oldest | newest | all-held (all at once)
-	Gated   []bool `json:"gated"` // per backend: SendEvent blocks until the harness releases it
+	Index   int `json:"index"`
+	MaxConc int `json:"max_concurrent_events"`
+	N       int `json:"backends"`
+	// backend-handler | tag-head | full-chain (cache hit) | full-chain-parked (cache miss: the event waits in
+	// the cloud stage for a lookup that is answered only after WaitForEvents has been called)
+	Head  string `json:"head"`
+	Order string `json:"order"` // which held backend is released next: oldest | newest | all-held (all at once)
+	Gated []bool `json:"gated"` // per backend: SendEvent blocks until the harness releases it
 }
 
 // makeInterleaving enumerates the scenario space in mixed radix. The position t is derived from the
@@ -36,9 +39,9 @@ func makeInterleaving(i, shards int) *interleaving {
 	t := i/shards + (i%shards)*5
 	s := &interleaving{Index: i, MaxConc: 1 + t%2}
 	s.N = s.MaxConc + 1 + (t/2)%3
-	s.Head = []string{"full-chain", "backend-handler", "tag-head"}[(t/6)%3]
-	s.Order = []string{"oldest", "newest", "all-held"}[(t/18)%3]
-	mask := t / 54
+	s.Head = []string{"full-chain", "backend-handler", "tag-head", "full-chain-parked"}[(t/6)%4]
+	s.Order = []string{"oldest", "newest", "all-held"}[(t/24)%3]
+	mask := t / 72
 	for k := 0; k < s.N; k++ {
 		// the first max-concurrent-events backends are always gated, so that the dispatcher parks
 		g := k < s.MaxConc || (mask>>uint(k-s.MaxConc))&1 == 0
@@ -51,8 +54,9 @@ func (c *checker) interleave(i int) outcome {
 	r := c.r
 	_, shards := r.Shard()
 	sc := makeInterleaving(i, shards)
-	cfg := &config{Index: i, Mode: "backends", NBackends: sc.N, MaxConc: sc.MaxConc, Parsers: 1, Workers: 1, Queue: 1, Cloud: sc.Head == "full-chain", Responder: "immediate", Static: []string{"static:1"},
-		Sources: []*srcPlan{{Addr: "10.8.8.8", Mode: "hit", ID: "i-interleave", Tags: []string{"az:c"}, inst: &gostatsd.Instance{ID: "i-interleave", Tags: gostatsd.Tags{"az:c"}}}}}
+	parked := sc.Head == "full-chain-parked"
+	cfg := &config{Index: i, Mode: "backends", NBackends: sc.N, MaxConc: sc.MaxConc, Parsers: 1, Workers: 1, Queue: 1, Cloud: strings.HasPrefix(sc.Head, "full-chain"), Responder: map[bool]string{true: "hold", false: "immediate"}[parked], Static: []string{"static:1"},
+		Sources: []*srcPlan{{Addr: "10.8.8.8", Mode: map[bool]string{true: "miss-ok", false: "hit"}[parked], ID: "i-interleave", Tags: []string{"az:c"}, inst: &gostatsd.Instance{ID: "i-interleave", Tags: gostatsd.Tags{"az:c"}}}}}
 	replay := map[string]interface{}{"kind": "interleaving", "cfg": i, "scenario": sc}
 	r.Case("interleaving #%d max-concurrent-events=%d backends=%d head=%s release=%s gated=%v", i, sc.MaxConc, sc.N, sc.Head, sc.Order, sc.Gated)
 	p, err := buildPipeline(r, cfg, uint64(i), nil)
@@ -104,10 +108,46 @@ func (c *checker) interleave(i int) outcome {
 		return true
 	}
 	gDone := make(chan struct{})
-	go func() { head.DispatchEvent(context.Background(), ev); close(gDone) }()
+	// DispatchEvent and WaitForEvents run on harness goroutines: a panic of the wait group ("Add called
+	// concurrently with Wait", negative counter) is turned into a violation instead of killing the shard.
+	var panicked atomic.Bool
+	go func() {
+		defer close(gDone)
+		if r.Guard("interleaving-panic:dispatch", replay, func() { head.DispatchEvent(context.Background(), ev) }) {
+			panicked.Store(true)
+		}
+	}()
 	var ws atomic.Int64
 	var wDone chan struct{}
 	enteredAtWaitStart := 0
+	startWait := func() {
+		for k := 0; k < sc.N; k++ {
+			if p.st.entered(id, k) {
+				enteredAtWaitStart++
+			}
+		}
+		wDone = make(chan struct{})
+		go func() {
+			defer close(wDone)
+			if r.Guard("interleaving-panic:wait", replay, func() { head.WaitForEvents() }) {
+				panicked.Store(true)
+			}
+			ws.Store(r.Stamp())
+		}()
+		// give a premature return the chance to happen at once (no verdict depends on this pause)
+		mon.WaitUntil(10*time.Millisecond, func() bool { return ws.Load() != 0 })
+	}
+	if parked {
+		// DispatchEvent returns once the cloud stage has taken the event; it stays there until the lookup is
+		// answered. Somebody waits now, and only then does the answer arrive.
+		select {
+		case <-gDone:
+		case <-time.After(watchdog):
+			return stuck("interleaving-dispatch-return")
+		}
+		startWait()
+		close(p.cache.release)
+	}
 	for {
 		// the dispatcher either has handed the event to everybody, or is parked behind a full semaphore
 		if !mon.WaitUntil(watchdog, func() bool { return allEntered() || len(held()) == sc.MaxConc }) {
@@ -118,15 +158,7 @@ func (c *checker) interleave(i int) outcome {
 		}
 		if wDone == nil {
 			// The event is accepted and partly handed over; its dispatch is parked. Now somebody waits.
-			for k := 0; k < sc.N; k++ {
-				if p.st.entered(id, k) {
-					enteredAtWaitStart++
-				}
-			}
-			wDone = make(chan struct{})
-			go func() { head.WaitForEvents(); ws.Store(r.Stamp()); close(wDone) }()
-			// give a premature return the chance to happen at once (no verdict depends on this pause)
-			mon.WaitUntil(10*time.Millisecond, func() bool { return ws.Load() != 0 })
+			startWait()
 		}
 		hs := held()
 		switch sc.Order {
@@ -162,6 +194,12 @@ func (c *checker) interleave(i int) outcome {
 	case <-time.After(watchdog):
 		return stuck("interleaving-wait-for-events")
 	}
+	if panicked.Load() {
+		// already recorded by Guard; the wait group is in an undefined state
+		r.Eval(1)
+		p.teardown(false)
+		return outcome{}
+	}
 	wstamp := ws.Load()
 	deliv, _, _ := p.st.snapshot()
 	what := fmt.Sprintf("max-concurrent-events %d, %d backends (gated %v, released %s first), WaitForEvents called on the %s after %d backends had received the event and its DispatchEvent was parked on the semaphore", sc.MaxConc, sc.N, sc.Gated, sc.Order, sc.Head, enteredAtWaitStart)
@@ -180,7 +218,7 @@ func (c *checker) interleave(i int) outcome {
 		if sc.Head != "backend-handler" {
 			want := []string{"static:1", "t:1"}
 			src := "10.8.8.8"
-			if sc.Head == "full-chain" {
+			if strings.HasPrefix(sc.Head, "full-chain") {
 				want, src = []string{"az:c", "static:1", "t:1"}, "i-interleave"
 			}
 			if fmt.Sprint(d.F.Tags) != fmt.Sprint(want) || d.F.Source != src {
